@@ -322,7 +322,7 @@ def replay(ctx, obj):
 
 
 def run(ctx):
-    explore(ctx, ctx.subrng("spell"), ctx.budget(300, 4000))
+    explore(ctx, ctx.subrng("spell"), ctx.budget(700, 6000))
 
 
 def search(ctx):
